@@ -23,7 +23,7 @@ HEADER = """osaca_version: 0.5.0
 micro_architecture: Synthetic
 arch_code: SYN
 isa: x86
-hidden_loads: false
+hidden_loads: %(hidden)s
 load_latency: {gpr: 4.0, mm: 4.0, xmm: 4.0, ymm: 4.0}
 %(mult)s
 load_throughput: []
@@ -59,7 +59,8 @@ def gen_model(rnd, tmp, idx, with_mult):
     # every model lists the ports in its own order (all models share the arch_code: nothing may be keyed by it)
     order = rnd.sample(PORTS, len(PORTS))
     with open(path, "w") as f:
-        f.write(HEADER % dict(mult=mtxt, ports="[" + ", ".join("'%s'" % p for p in order) + "]") + "".join(forms))
+        # (a model may leave hidden_loads without a value, as ivb.yml / snb.yml do: not specified = no hidden loads)
+        f.write(HEADER % dict(hidden=("false", "~")[idx % 3 == 2], mult=mtxt, ports="[" + ", ".join("'%s'" % p for p in order) + "]") + "".join(forms))
     return path, spec, (mult if with_mult else {"gpr": 1.0, "ymm": 1.0}), order
 
 
